@@ -118,6 +118,7 @@ def reset_world():
     # alive (indexed) at a time - finish with a world before building the next.
     s.namespace_manager.namespaces.clear()
     NamespaceManager.default = "DEFAULT"
+    s.namespace_manager.__dict__.pop("default", None)  # the readers set it on the instance
     s.namespace_manager.ignore_ns_change = False
     uq.MOD_NAME_UID = 0
     fl.unique_number = 0
@@ -160,6 +161,7 @@ def mutable_globals_snapshot():
     from spydrnet.plugins.namespace_manager import NamespaceManager
 
     snap["NamespaceManager.default"] = repr(NamespaceManager.default)
+    snap["namespace_manager.default"] = repr(sys.modules["spydrnet"].namespace_manager.default)
     snap["NamespaceManager.policies"] = repr(sorted(NamespaceManager.policies))
     s = sys.modules["spydrnet"]
     snap["namespace_manager.ignore_ns_change"] = repr(s.namespace_manager.ignore_ns_change)
